@@ -4,6 +4,7 @@ import (
 	"fmt"
 	"sort"
 	"strings"
+	"time"
 
 	"verif/internal/engine"
 	"verif/internal/gen"
@@ -35,25 +36,31 @@ func enumInputs(x *ctx, withCycles bool, emit func(fam, name, src string, flags 
 	bounds["sigma_hot"] = len(gen.SigmaHot)
 	bounds["len_sigma_t"] = lenT
 	bounds["len_sigma_hot"] = lenHot
-	var rec func(alpha []string, prefix string, depth, max int, fam string)
-	rec = func(alpha []string, prefix string, depth, max int, fam string) {
-		if depth > 0 {
+	// token strings are emitted LAST (see the end of this function), shortest first, so that an internal
+	// time cap leaves every other family and a complete lower length bound covered
+	var rec func(alpha []string, prefix string, depth, exact int, fam string)
+	rec = func(alpha []string, prefix string, depth, exact int, fam string) {
+		if depth == exact {
 			emit(fam, file, prefix, []string{"-i"})
 			if !strings.HasSuffix(prefix, "\n") {
 				emit(fam, file, prefix+"\n", []string{"-i"})
 			} else {
 				emit(fam, file, strings.TrimRight(prefix, " \n"), []string{"-i"})
 			}
-		}
-		if depth == max {
 			return
 		}
 		for _, t := range alpha {
-			rec(alpha, prefix+t, depth+1, max, fam)
+			rec(alpha, prefix+t, depth+1, exact, fam)
 		}
 	}
-	rec(gen.SigmaT, "", 0, lenT, "tokT")
-	rec(gen.SigmaHot, "", 0, lenHot, "tokHot")
+	defer func() {
+		for l := 1; l <= lenHot; l++ {
+			if l <= lenT {
+				rec(gen.SigmaT, "", 0, l, fmt.Sprintf("tokT-len%d", l))
+			}
+			rec(gen.SigmaHot, "", 0, l, fmt.Sprintf("tokHot-len%d", l))
+		}
+	}()
 
 	// (b) corpus d=0 and prefixes
 	corpus := gen.Corpus(engine.RepoRoot)
@@ -248,8 +255,22 @@ func crashHang(x *ctx, prop string) {
 	famCount := map[string]int{}
 	sitesSeen := map[string]int{}
 	var bounds map[string]any
+	cappedAt := ""
 	x.stream(func(emit func(*engine.Case)) {
+		// internal time cap: stop generating (never a failure), report the families completed below it
+		capAfter := 8 * time.Minute
+		if x.tier == "thorough" {
+			capAfter = 50 * time.Minute
+		}
+		deadline := time.Now().Add(capAfter)
 		bounds = enumInputs(x, true, func(fam, name, src string, flags []string) {
+			if cappedAt != "" {
+				return
+			}
+			if time.Now().After(deadline) {
+				cappedAt = fam
+				return
+			}
 			emit(&engine.Case{Files: map[string]string{name: src}, Argv: append([]string{name}, flags...), Tag: fam})
 		})
 	}, func(c *engine.Case, res *engine.Result) {
@@ -310,6 +331,9 @@ func crashHang(x *ctx, prop string) {
 		}
 	})
 	r.Bounds = bounds
+	if cappedAt != "" {
+		r.CapsHit = append(r.CapsHit, "time cap reached while generating family "+cappedAt+"; all earlier families (see `families`) are complete")
+	}
 	r.States = r.Evaluations
 	r.Extra["families"] = famCount
 	r.Extra["abnormal_signatures"] = sitesSeen
